@@ -135,4 +135,70 @@ theorem shortest_roundtrips (hf : WF f) {bits : Nat} (h0 : 0 < bits) (hfin : bit
     {D : Nat} {E : Int} (h : (D, E) ∈ shortest f bits) :
     roundNE f (decFrac D E).1 (decFrac D E).2 = bits := shortest_roundtrips' hf h0 hfin h
 
+/-! ## Non-vacuity: concrete evaluations and instantiated hypotheses -/
+
+section examples
+
+example : roundNE f64 1 10 = 0x3fb999999999999a := by decide +kernel
+example : roundNE f32 1 10 = 0x3dcccccd := by decide +kernel
+-- subnormals: the smallest one; half of it (tie → 0, even); 1.5 of it (tie → 2, even)
+example : roundNE f64 1 (2 ^ 1074) = 1 := by decide +kernel
+example : roundNE f64 1 (2 ^ 1075) = 0 := by decide +kernel
+example : roundNE f64 3 (2 ^ 1075) = 2 := by decide +kernel
+-- exact ties in the normal range go to the even neighbour (down, then up)
+example : roundNE f64 (2 ^ 53 + 1) 1 = 0x4340000000000000 := by decide +kernel
+example : roundNE f64 (2 ^ 53 + 3) 1 = 0x4340000000000002 := by decide +kernel
+-- the overflow edge: (2 − 2^−53)·2^1023 = (2^54 − 1)·2^970 goes to +∞, one below does not
+example : roundNE f64 ((2 ^ 54 - 1) * 2 ^ 970) 1 = f64.infBits := by decide +kernel
+example : roundNE f64 ((2 ^ 54 - 1) * 2 ^ 970 - 1) 1 = 0x7fefffffffffffff := by decide +kernel
+example : roundNE f32 ((2 ^ 25 - 1) * 2 ^ 103) 1 = f32.infBits := by decide +kernel
+example : shortest f64 0x3fb999999999999a = [(1, -1)] := by decide +kernel
+example : shortest f64 1 = [(5, -324)] := by decide +kernel
+example : shortest f64 0x7fefffffffffffff = [(17976931348623157, 292)] := by decide +kernel
+example : shortest f64 0x4340000000000000 = [(9007199254740992, 0)] := by decide +kernel
+example : shortest f32 0x3dcccccd = [(1, -1)] := by decide +kernel
+
+/-- hypotheses of `roundNE_nearest` are satisfiable (0.1 against its lower neighbour) -/
+example : |valQ f64 (roundNE f64 1 10) - ((1 : ℕ) : ℚ) / (10 : ℕ)| ≤
+    |valQ f64 0x3fb9999999999999 - ((1 : ℕ) : ℚ) / (10 : ℕ)| :=
+  roundNE_nearest wf_f64 1 (by decide) (by decide +kernel) _ (by decide +kernel)
+
+theorem valQ_tie_example :
+    valQ f64 0x4340000000000000 = 2 ^ 53 ∧ valQ f64 0x4340000000000001 = 2 ^ 53 + 2 := by
+  have h0 : f64.decode 0x4340000000000000 = ⟨false, 2 ^ 52, 1⟩ := by decide +kernel
+  have h1 : f64.decode 0x4340000000000001 = ⟨false, 2 ^ 52 + 1, 1⟩ := by decide +kernel
+  constructor
+  · simp only [valQ, h0]; norm_num
+  · simp only [valQ, h1]; norm_num
+
+/-- hypotheses of `roundNE_tie_even` are satisfiable: `2^53 + 1` is exactly half-way between
+`2^53` (even pattern, returned) and `2^53 + 2` (odd pattern) -/
+example : f64.manField (roundNE f64 (2 ^ 53 + 1) 1) % 2 = 0 ∧ roundNE f64 (2 ^ 53 + 1) 1 % 2 = 0 := by
+  have hr : roundNE f64 (2 ^ 53 + 1) 1 = 0x4340000000000000 := by decide +kernel
+  refine roundNE_tie_even wf_f64 _ (by decide) (by rw [hr]; decide +kernel) 0x4340000000000001
+    (by decide +kernel) (by rw [hr]; decide) ?_
+  rw [hr, valQ_tie_example.1, valQ_tie_example.2]
+  norm_num
+
+/-- `roundNE_overflow`, left to right, at the threshold itself -/
+example : (2 - (2 : ℚ) ^ (-(f64.p : ℤ))) * (2 : ℚ) ^ (f64.bias : ℤ)
+    ≤ (((2 ^ 54 - 1) * 2 ^ 970 : ℕ) : ℚ) / ((1 : ℕ) : ℚ) :=
+  (roundNE_overflow wf_f64 _ (by decide)).mp (by decide +kernel)
+
+example : roundNE f64 (f64.decode 0x3fb999999999999a).toFrac.1 (f64.decode 0x3fb999999999999a).toFrac.2
+    = 0x3fb999999999999a := roundNE_of_float wf_f64 (by decide +kernel)
+
+example : roundNE f64 1 10 ≤ roundNE f64 1 3 :=
+  roundNE_mono wf_f64 (by decide) (by decide) (by norm_num)
+
+example : roundNE f64 (7 * 1) (7 * 10) = roundNE f64 1 10 := roundNE_scale wf_f64 (by decide) 1 (by decide)
+
+example : roundNE f64 (decFrac 1 (-1)).1 (decFrac 1 (-1)).2 = 0x3fb999999999999a :=
+  shortest_roundtrips wf_f64 (by decide) (by decide +kernel) (by decide +kernel)
+
+example : litBits f64 10 10 ⟨true, [0, 0], [0], 5⟩ = f64.signBit :=
+  litBits_zero f64 10 10 _ (by decide)
+
+end examples
+
 end LexVerif.Props.RoundNE
